@@ -104,7 +104,7 @@ theorem reconcile_path_prefix (mode : Mode) (toAlpha : Bool) (path : Path) (a α
         (rw [hhere, List.nil_append] at hc; exact hc)
     obtain ⟨p, hp, hcp⟩ := (mem_concat_side toAlpha _ c).mp this
     obtain ⟨n, hn, rfl⟩ := List.mem_map.mp hp
-    have := ih n hn c hcp
+    have := ih ⟨n, hn⟩ c hcp
     exact (List.prefix_append path [n]).trans this
   | case6 path a α β h1 h2 h3 h4 =>
     intro c hc
